@@ -42,6 +42,8 @@ def check(m, run):
     run.floor('AL7.crossing-rule', 4, 'two edge classes x (range test, side test)')
     run.floor('TF1.tolerance-forwarded', 4, 'ray and voxel callees')
     c18.kd4(m, run)        # the voxel grid covers the bounding box of the shape: the box is taken over the unweighted control points
+    from .. import skel_drivers as _sdk
+    _sdk.kd5(m, run)       # find_ctrlpts reads the 2-D view: [u][v] of the view is the point stored at v + size_v * u
 
 
 def vx1(m, run):
